@@ -242,7 +242,7 @@ func (e Envelope) Distance(o Envelope) (float64, bool) {
 	}
 	dx := fastMax(0, fastMax(o.min.X-e.max.X, e.min.X-o.max.X))
 	dy := fastMax(0, fastMax(o.min.Y-e.max.Y, e.min.Y-o.max.Y))
-	return math.Sqrt(dx*dx + dy*dy), true
+	return math.Hypot(dx, dy), true
 }
 
 // TransformXY transforms this Envelope into another Envelope according to fn.
